@@ -2,3 +2,4 @@ import FlVerif.Drv.All
 import FlVerif.Props.C04
 import FlVerif.Props.C05
 import FlVerif.Props.C17
+import FlVerif.Props.C06
